@@ -152,7 +152,7 @@ def run(ctx: Ctx) -> None:
         "tree with a re-export stub, a placeholder stub or an underscore-led module path."
     )
     ctx.assumptions = ["the list returned by generate_stub_data is observed (not altered) to count the virtual files; the path rule applied to it is the one the statement gives"]
-    failures = engine.search(ctx, MOD, shards=ctx.n(16, 96), examples=ctx.n(12, 50))
+    failures = engine.search(ctx, MOD, shards=ctx.n(16, 96), examples=ctx.n(20, 50))
     engine.report_failures(ctx, MOD, failures)
     engine.replay_known(ctx, MOD)
 
